@@ -1,152 +1,87 @@
-import CssVerif.Lemmas.SheetNs
+import CssVerif.Lemmas.SheetList
 /-!
 # C09 — a stylesheet stays structurally valid under any sequence of DOM edits
 
-Property theorems only (helpers: `Lemmas/SheetEdit.lean`; specification: `Model/SheetValid.lean`; model:
+Property theorems only (helpers: `Lemmas/Sheet*.lean`; specification: `Model/SheetValid.lean`; model:
 `Model/SheetEdit.lean`, tied to the source by the lock-step correspondence of `tools/harness/c09.py` and by the
 generated tables `Gen/C09RuleKinds.lean`).
+
+The model mirrors the code AFTER the eight `fix:` commits that came out of this check (ordered insert scan, ignored
+index, returned index, merged @charset object, @media/@page kind tests, detaching replaced rules, `parentStyleSheet`
+at any depth): every theorem that used to carry a region guard (`…_partial`) is now stated and proved in full.
+The operations: insertRule (any index, object or text, `inOrder` or not), add, insertRule(CSSRuleList), deleteRule,
+encoding, cssText of the sheet, namespaces[p] = u, del namespaces[p], and insertRule / insertRule(CSSRuleList) /
+deleteRule / cssText on the nested list at any path; raise or log-only mode; accepted, refused or interrupted.
 -/
 namespace CssVerif.C09
 open CssVerif.SheetEdit CssVerif.SheetEdit.Wit
 
 /-! ## T9.1a — order and @charset clause -/
 
-/-- **T9.1a** FULL STATEMENT: `∀ st op, TopOK st.rules → TopOK (step st op).1.rules` — refuted for the code as it is by
-the two witnesses `order_breaks_add_variables`, `order_breaks_inorder_index` below (known findings).
-
-PROVED: every operation — accepted, refused, or interrupted by an exception — leaves the sheet's list ordered
-(@charset only first, @import < @namespace < @variables < style/@media/@page/@font-face), for every state, rule kind,
-index, string or object argument, raise or log-only mode, EXCEPT the operations of `OrderRegion`: `add(@variables)` /
-`insertRule(…, inOrder=True)` in the two regions described there. -/
-theorem step_order_partial (st : St) (op : Op) (h : TopOK st.rules) (hr : ¬ OrderRegion st op) :
-    TopOK (step st op).1.rules := by
+/-- **T9.1a** every operation — accepted, refused, or interrupted by an exception — leaves the sheet's list ordered
+(@charset only first, @import < @namespace < @variables < style/@media/@page/@font-face; comments and unknown rules
+anywhere), for every state, rule kind, index, argument form and mode. No exclusion. -/
+theorem step_order (st : St) (op : Op) (h : TopOK st.rules) : TopOK (step st op).1.rules := by
   cases op with
-  | insert s i v => exact insertRule_topOK st s i false v _ h (by simp) (by simp)
-  | add s v =>
-    exact insertRule_topOK st s none true v _ h (by
-      intro ⟨_, hk, hb⟩; exact hr ⟨hk, hb⟩) (by simp)
-  | insertOrdered s i v =>
-    apply insertRule_topOK st s (some i) true v _ h
-    · intro ⟨_, hk, hb⟩; exact hr (Or.inl ⟨hk, hb⟩)
-    · intro _ hf
-      right
-      by_cases hi : i = (st.rules.length : Int)
-      · rw [hi]
-      · exact absurd (Or.inr ⟨hf, hi⟩) hr
+  | insert s i v => exact insertRule_topOK st s i false v _ h
+  | add s v => exact insertRule_topOK st s none true v _ h
+  | insertOrdered s i v => exact insertRule_topOK st s (some i) true v _ h
+  | insertList specs i => exact insertList_topOK st specs i h
   | delete i => exact deleteRule_topOK st i h
   | setEncoding e v => exact setEncoding_topOK st e v h
   | setText specs => exact setText_topOK st specs h
   | nsSet p u => exact nsSet_topOK st p u h
   | nsDel p => exact nsDel_topOK st p h
   | nInsert path s i v => unfold TopOK; rw [step, nInsert_kinds]; exact h
+  | nInsertList path specs i => unfold TopOK; rw [step, (nInsertList_view st path specs i).1]; exact h
   | nDelete path i => unfold TopOK; rw [step, nDelete_kinds]; exact h
   | nSetText path kids => unfold TopOK; rw [step, nSetText_kinds]; exact h
   | setMode b => exact h
 
-/-! machine-checked witnesses of the two order findings (the model exhibits them; the harness replays them on the
-implementation on every run) -/
-
-/-- C09-add-variables-scan: `/*c*/ @import "x";` then `add(@variables{…})` puts @variables first -/
-theorem order_breaks_add_variables :
-    let st := run (St.empty) [.setText [commentS, importS]]
-    TopOK st.rules ∧ ¬ TopOK (step st (.add varsS false)).1.rules := by
+/-- regression witnesses of the two order findings (fixed): `/*c*/ @import "x";` then `add(@variables)`, and
+`@import "x";` then `insertRule(@namespace, 0, inOrder=True)` now put the new rule behind the @import -/
+theorem order_kept_add_variables :
+    kindsOf (run St.empty [.setText [commentS, importS], .add varsS false]).rules = [.comment, .imp, .vars] := by
   decide
 
-/-- C09-inorder-index-not-ignored: `@import "x";` then `insertRule(@namespace, 0, inOrder=True)` puts it first -/
-theorem order_breaks_inorder_index :
-    let st := run (St.empty) [.add importS false]
-    TopOK st.rules ∧ ¬ TopOK (step st (.insertOrdered (nsS 0x70 0x75) 0 false)).1.rules := by
-  decide
-
-/-- non-vacuity: outside the region the same operations are covered, e.g. `add(@variables)` after `@import; /*c*/` -/
-example : ¬ OrderRegion (run (St.empty) [.setText [importS, commentS]]) (.add varsS false) := by
+theorem order_kept_inorder_index :
+    kindsOf (run St.empty [.add importS false, .insertOrdered (nsS 0x70 0x75) 0 false]).rules = [.imp, .ns] := by
   decide
 
 /-! ## T9.1 — all clauses, every operation -/
 
-/-- **T9.1** FULL STATEMENT: `∀ st op, Valid st → Valid (step st op).1` — refuted for the code as it is by the witnesses
-`order_breaks_*` above and `valid_breaks_*` below (known findings).
-
-PROVED: from a structurally valid state — ordered list, nested lists holding allowed kinds only, every rule in the
-tree naming its container, every dropped object naming nothing — EVERY operation (insertRule at any index, add,
-deleteRule, encoding, cssText of the sheet, namespaces[p]=u, del namespaces[p], and insertRule / deleteRule / cssText on
-the nested list at any path; string or object argument; raise or log-only mode; accepted, refused or interrupted)
-leads to a valid state, provided the operation is outside `Region` (the four regions of the listed known findings,
-each a decidable predicate on state and operation) and rule objects handed in are themselves well nested (`OpOK`). -/
-theorem step_valid_partial (st : St) (op : Op) (hv : Valid st) (hs : OpOK op) (hr : ¬ Region st op) :
-    Valid (step st op).1 := by
-  have hord : ¬ OrderRegion st op := fun h => hr (Or.inl h)
-  have hadopt : ¬ AdoptRegion st op := fun h => hr (Or.inr (Or.inl h))
-  have hnest : ¬ NestedRegion st op := fun h => hr (Or.inr (Or.inr (Or.inl h)))
-  have hrepl : ¬ ReplaceRegion st op := fun h => hr (Or.inr (Or.inr (Or.inr h)))
-  have htop := step_order_partial st op hv.top hord
+/-- **T9.1** from a structurally valid state — ordered list, nested lists holding allowed kinds only at every depth,
+every rule in the tree naming its container, every dropped (removed, refused, replaced) object naming nothing —
+EVERY operation leads to a valid state, provided rule objects handed in are themselves well nested (`OpOK`; texts
+are parsed, which guarantees it). No region is excluded any more. -/
+theorem step_valid (st : St) (op : Op) (hv : Valid st) (hs : OpOK op) : Valid (step st op).1 := by
+  have htop := step_order st op hv.top
   have hinv : Inv st := ⟨hv.kids, hv.links, hv.gone, hv.ids⟩
   suffices h : Inv (step st op).1 from ⟨htop, h.kids, h.links, h.gone, h.ids⟩
   cases op with
-  | insert s i v =>
-    exact insertRule_inv st s i false v _ hinv (by
-      rcases hs with hs | hs
-      · exact Or.inl hs
-      · exact Or.inr hs) (by simp)
-  | add s v =>
-    apply insertRule_inv st s none true v _ hinv (by
-      rcases hs with hs | hs
-      · exact Or.inl hs
-      · exact Or.inr hs)
-    intro ⟨_, hv', hk, _, hf, _⟩
-    exact hadopt ⟨hv', hk, hf⟩
+  | insert s i v => exact insertRule_inv st s i false v _ hinv (by rcases hs with hs | hs; exact Or.inl hs; exact Or.inr hs)
+  | add s v => exact insertRule_inv st s none true v _ hinv (by rcases hs with hs | hs; exact Or.inl hs; exact Or.inr hs)
   | insertOrdered s i v =>
-    apply insertRule_inv st s (some i) true v _ hinv (by
-      rcases hs with hs | hs
-      · exact Or.inl hs
-      · exact Or.inr hs)
-    intro ⟨_, hv', hk, _, hf, hi⟩
-    exact hadopt ⟨hv', hk, hf, hi⟩
+    exact insertRule_inv st s (some i) true v _ hinv (by rcases hs with hs | hs; exact Or.inl hs; exact Or.inr hs)
+  | insertList specs i => exact insertList_inv st specs i hinv hs
   | delete i => exact deleteRule_inv st i hinv
   | setEncoding e v => exact setEncoding_inv st e v hinv
-  | setText specs =>
-    apply setText_inv st specs hinv
-    intro ⟨hne, hok⟩
-    apply hrepl
-    simp only [ReplaceRegion, replaceRegionB, Bool.and_eq_true, Bool.not_eq_true', hok, and_true]
-    cases hr' : st.rules with
-    | nil => exact absurd hr' hne
-    | cons a t => rfl
+  | setText specs => exact setText_inv st specs hinv
   | nsSet p u => exact nsSet_inv st p u hinv
   | nsDel p => exact nsDel_inv st p hinv
   | nInsert path s i v =>
-    apply nInsert_inv st path s i v hinv (by
-      rcases hs with hs | hs
-      · exact Or.inl hs
-      · exact Or.inr hs)
-    intro c hc hrej
-    cases hal : allowedIn c.kind s.kind with
-    | true => rfl
-    | false =>
-      exfalso; apply hnest
-      simp [NestedRegion, nestedRegionB, hc, hrej, hal]
+    exact nInsert_inv st path s i v hinv (by rcases hs with hs | hs; exact Or.inl hs; exact Or.inr hs)
+  | nInsertList path specs i => exact nInsertList_inv st path specs i hinv hs
   | nDelete path i => exact nDelete_inv st path i hinv
-  | nSetText path kids =>
-    apply nSetText_inv st path kids hinv
-    intro c hc hcont hk hnone
-    apply hrepl
-    simp [ReplaceRegion, replaceRegionB, hc, hcont, hk, hnone]
+  | nSetText path kids => exact nSetText_inv st path kids hinv
   | setMode b => exact ⟨hinv.kids, hinv.links, hinv.gone, hinv.ids⟩
 
-/-! machine-checked witnesses of the other findings: each history starts at the empty sheet, stays valid up to the last
-operation, and the last operation (inside the region) produces an invalid state. The harness replays the same
-histories on the implementation on every run (`known/C09.json`). -/
-
-/-- C09-add-charset-adopts: `add(@charset "a")`, then `add(CSSCharsetRule("b"))`: the second object is not kept
-but names the sheet -/
-theorem valid_breaks_add_charset :
-    let st := run St.empty [.add (charsetS 0x61) false]
-    Valid st ∧ ¬ Valid (step st (.add (charsetS 0x62) false)).1 := by
+/-- regression witnesses of the findings about dropped objects and nested kinds (all fixed): the operations that
+used to break `Valid` now keep it, and are refused where they must be -/
+theorem valid_after_add_charset :
+    Valid (run St.empty [.add (charsetS 0x61) false, .add (charsetS 0x62) false]) := by
   simp only [← validB_iff]; decide
 
-/-- (fixed in the code by 3ec898a, formerly C09-clean-refused-halfway) `@namespace p "a"; p|x{}` then
-`insertRule(@namespace p "b", 0)`: raises NoModificationAllowedErr and leaves a valid sheet of the same length —
-an instance of `step_valid_partial`, kept as a regression witness -/
 theorem valid_after_clean_refused :
     let st := run St.empty [.add (nsS 0x70 0x61) false, .add (styleUsing 0x61) false]
     (step st (.insert (nsS 0x70 0x62) (some 0) false)).2 = .err .noMod ∧
@@ -154,92 +89,47 @@ theorem valid_after_clean_refused :
       (step st (.insert (nsS 0x70 0x62) (some 0) false)).1.rules.length = 2 := by
   simp only [← validB_iff]; decide
 
-/-- C09-media-accepts-variables -/
-theorem valid_breaks_media_variables :
+theorem media_refuses_variables :
     let st := run St.empty [.add (mediaS []) false]
-    Valid st ∧ (step st (.nInsert [0] varsS none false)).2 = .ok 0 ∧
-      ¬ Valid (step st (.nInsert [0] varsS none false)).1 := by
+    (step st (.nInsert [0] varsS none false)).2 = .err .hierarchy ∧ Valid (step st (.nInsert [0] varsS none false)).1 := by
   simp only [← validB_iff]; decide
 
-/-- C09-page-accepts-nonmargin -/
-theorem valid_breaks_page_style :
+theorem page_refuses_style :
     let st := run St.empty [.add (pageS []) false]
-    Valid st ∧ (step st (.nInsert [0] styleS none false)).2 = .ok 0 ∧
-      ¬ Valid (step st (.nInsert [0] styleS none false)).1 := by
+    (step st (.nInsert [0] styleS none false)).2 = .err .hierarchy ∧ Valid (step st (.nInsert [0] styleS none false)).1 := by
   simp only [← validB_iff]; decide
 
-/-- C09-text-replace-keeps-parent, sheet: the replaced rule still names the sheet -/
-theorem valid_breaks_sheet_text :
-    let st := run St.empty [.add styleS false]
-    Valid st ∧ ¬ Valid (step st (.setText [fontfaceS])).1 := by
+theorem valid_after_text_replace :
+    Valid (run St.empty [.add styleS false, .add (mediaS [styleS]) false, .nSetText [1] [commentS], .setText [fontfaceS]]) := by
   simp only [← validB_iff]; decide
 
-/-- C09-text-replace-keeps-parent, @media: the replaced child still names the @media rule -/
-theorem valid_breaks_media_text :
-    let st := run St.empty [.add (mediaS [styleS]) false]
-    Valid st ∧ ¬ Valid (step st (.nSetText [0] [commentS])).1 := by
-  simp only [← validB_iff]; decide
-
-/-- C09-insert-stale-index: `@namespace p "a"; @namespace q "b"; x{}` then `insertRule(@namespace z "a", 2)` returns
-2, but the clean-up removed the rule at index 0 and the new rule stands at 1 -/
-theorem index_stale_after_clean :
-    let st := run St.empty [.add (nsS 0x70 0x61) false, .add (nsS 0x71 0x62) false, .add styleS false]
-    let r := step st (.insert (nsS 0x7A 0x61) (some 2) false)
-    r.2 = .ok 2 ∧ (r.1.rules[2]?.map (·.kind)) = some .style ∧ (r.1.rules[1]?.map (·.pre)) = some [0x7A] := by
-  decide
-
-/-- **returned index** FULL STATEMENT: "an accepted insertRule/add returns the index at which the new rule stands" —
-refuted by `index_stale_after_clean` above.
-PROVED: whenever `insertRule` (any index, ordered or not, object or text) returns an index and the list became exactly
-one longer — i.e. unless the namespace clean-up removed a rule, or the @charset rule was merged — the rule at the
-returned index is the new object: of the kind handed in, created by this call, naming the sheet. -/
-theorem insert_index_partial (st : St) (s : Spec) (index : Option Int) (inOrder viaStr : Bool) (n : Nat)
-    (hok : (insertRule st s index inOrder viaStr (!viaStr)).2 = .ok n)
-    (hlen : (insertRule st s index inOrder viaStr (!viaStr)).1.rules.length = st.rules.length + 1) :
-    ∃ x, (insertRule st s index inOrder viaStr (!viaStr)).1.rules[n]? = some x ∧
-      x.kind = s.kind ∧ x.pss = true ∧ x.id = st.next :=
-  insertRule_index st s index inOrder viaStr _ n hok hlen
-
-/-- C09-parentstylesheet-depth2: in a VALID state the getter answers the sheet down to depth 1 … -/
-theorem parentStyleSheet_depth1 (st : St) (h : Valid st) :
-    (∀ r ∈ st.rules, derivedPss none r = true) ∧
-    (∀ c ∈ st.rules, ∀ k ∈ c.kids, derivedPss (some c) k = true) :=
-  derivedPss_depth1 st h
-
-/-- … and `None` at depth 2 (`@media{@media{a{}}}`, freshly parsed, valid) -/
-theorem parentStyleSheet_depth2_none :
-    let st := run St.empty [.setText [mediaS [mediaS [styleS]]]]
-    Valid st ∧ (st.rules.all fun c => c.kids.all fun k => k.kids.all fun g => !derivedPss (some k) g) = true ∧
-      (st.rules.all fun c => c.kids.all fun k => !k.kids.isEmpty) = true := by
+/-- a CSSRuleList is inserted as a whole or not at all: `@media{}` and `insertRule(CSSRuleList[style, @font-face])`
+is refused and leaves the @media rule empty; the list `[style, comment]` is accepted -/
+theorem list_all_or_nothing :
+    let st := run St.empty [.add (mediaS []) false]
+    (step st (.nInsertList [0] [styleS, fontfaceS] none)).2 = .err .hierarchy ∧
+      (step st (.nInsertList [0] [styleS, fontfaceS] none)).1.rules.map (fun r => kindsOf r.kids) = [[]] ∧
+      (step st (.nInsertList [0] [styleS, commentS] none)).1.rules.map (fun r => kindsOf r.kids) = [[.style, .comment]] ∧
+      Valid (step st (.nInsertList [0] [styleS, fontfaceS] none)).1 := by
   simp only [← validB_iff]; decide
 
 /-! ## T9.2 — reachable states -/
 
-/-- the empty sheet is valid -/
 theorem empty_valid (raising : Bool) : Valid (St.empty raising) := by
   refine ⟨topOK_nil, ?_, ?_, ?_, ?_⟩ <;> intro r hr <;> cases hr
 
-/-- **T9.2** every state reached from a valid state (in particular from the empty sheet, or from any parsed sheet: a
-parse is the operation `setText` on the empty sheet) by a history of ANY length that stays outside the regions of the
-listed findings is valid — by induction over the history. -/
-theorem reachable_valid_partial (st : St) (ops : List Op) (hv : Valid st) (hc : Clean st ops) :
-    Valid (run st ops) := by
+/-- **T9.2** every state reached from a valid state (in particular from the empty sheet; a parse is the operation
+`setText` on the empty sheet) by a history of ANY length and of ANY operations is valid — by induction over the
+history. The only hypothesis: rule objects handed in are well nested. -/
+theorem reachable_valid (st : St) (ops : List Op) (hv : Valid st) (hc : AllOK ops) : Valid (run st ops) := by
   induction ops generalizing st with
   | nil => exact hv
   | cons op ops ih =>
-    exact ih (step st op).1 (step_valid_partial st op hv hc.1 hc.2.1) hc.2.2
+    exact ih (step st op).1 (step_valid st op hv (hc op (by simp))) (fun o ho => hc o (by simp [ho]))
 
-/-! ## T9.1t / T9.2t — the tree alone, with fewer exclusions -/
-
-/-- **T9.1t** the two findings about dropped objects (an @charset object that is merged, rules replaced by a text)
-do not touch the sheet's tree: order, nested kinds and the parent links of every rule IN the tree are kept by every
-operation outside the two order regions and the two nested-kind regions — in particular by every `cssText = …` of the
-sheet or of a nested rule, accepted or refused, whatever was there before. -/
-theorem step_tree_partial (st : St) (op : Op) (hv : ValidTree st) (hs : OpOK op) (hr : ¬ TreeRegion st op) :
-    ValidTree (step st op).1 := by
-  have hord : ¬ OrderRegion st op := fun h => hr (Or.inl h)
-  have hnest : ¬ NestedRegion st op := fun h => hr (Or.inr h)
-  have htop := step_order_partial st op hv.top hord
+/-- the tree alone (no statement about dropped objects needed or made) -/
+theorem step_tree (st : St) (op : Op) (hv : ValidTree st) (hs : OpOK op) : ValidTree (step st op).1 := by
+  have htop := step_order st op hv.top
   have hl : Live st := ⟨hv.kids, hv.links, hv.ids⟩
   suffices h : Live (step st op).1 from ⟨htop, h.kids, h.links, h.ids⟩
   cases op with
@@ -247,74 +137,86 @@ theorem step_tree_partial (st : St) (op : Op) (hv : ValidTree st) (hs : OpOK op)
   | add s v => exact insertRule_live st s none true v _ hl (by rcases hs with hs | hs; exact Or.inl hs; exact Or.inr hs)
   | insertOrdered s i v =>
     exact insertRule_live st s (some i) true v _ hl (by rcases hs with hs | hs; exact Or.inl hs; exact Or.inr hs)
+  | insertList specs i => exact insertList_live st specs i hl hs
   | delete i => exact deleteRule_live st i hl
   | setEncoding e v => exact setEncoding_live st e v hl
   | setText specs => exact setText_live st specs hl
   | nsSet p u => exact nsSet_live st p u hl
   | nsDel p => exact nsDel_live st p hl
   | nInsert path s i v =>
-    apply nInsert_live st path s i v hl (by rcases hs with hs | hs; exact Or.inl hs; exact Or.inr hs)
-    intro c hc hrej
-    cases hal : allowedIn c.kind s.kind with
-    | true => rfl
-    | false =>
-      exfalso; apply hnest
-      simp [NestedRegion, nestedRegionB, hc, hrej, hal]
+    exact nInsert_live st path s i v hl (by rcases hs with hs | hs; exact Or.inl hs; exact Or.inr hs)
+  | nInsertList path specs i => exact nInsertList_live st path specs i hl hs
   | nDelete path i => exact nDelete_live st path i hl
   | nSetText path kids => exact nSetText_live st path kids hl
   | setMode b => exact ⟨hl.kids, hl.links, hl.ids⟩
 
-/-- **T9.2t** … for histories of any length -/
-theorem reachable_tree_partial (st : St) (ops : List Op) (hv : ValidTree st) (hc : CleanTree st ops) :
-    ValidTree (run st ops) := by
+theorem reachable_tree (st : St) (ops : List Op) (hv : ValidTree st) (hc : AllOK ops) : ValidTree (run st ops) := by
   induction ops generalizing st with
   | nil => exact hv
   | cons op ops ih =>
-    exact ih (step st op).1 (step_tree_partial st op hv hc.1 hc.2.1) hc.2.2
+    exact ih (step st op).1 (step_tree st op hv (hc op (by simp))) (fun o ho => hc o (by simp [ho]))
 
-/-- non-vacuity: a history with a text replace on a non-empty sheet, a merged @charset object and a text replace on
-a non-empty @media rule (all three inside `Region`, outside `TreeRegion`) -/
+/-! ## the returned index; the public getter `parentStyleSheet` -/
+
+/-- **returned index** whenever `insertRule` / `add` (any index, ordered or not, object or text) returns an index,
+the rule at that index is the new object — of the kind handed in, created by this call, naming the sheet. The one
+exception is by design: an ordered add of @charset onto an existing @charset rule copies the encoding and returns
+index 0, the index of that rule. -/
+theorem insert_index (st : St) (s : Spec) (index : Option Int) (inOrder viaStr : Bool) (n : Nat)
+    (hids : ∀ x ∈ st.rules, x.id < st.next)
+    (hnm : ¬ (inOrder = true ∧ s.kind = .charset ∧ firstIs [.charset] (kindsOf st.rules) = true))
+    (hok : (insertRule st s index inOrder viaStr (!viaStr)).2 = .ok n) :
+    ∃ x, (insertRule st s index inOrder viaStr (!viaStr)).1.rules[n]? = some x ∧
+      x.kind = s.kind ∧ x.pss = true ∧ x.id = st.next :=
+  insertRule_index st s index inOrder viaStr _ n hids hnm hok
+
+/-- regression witness (fixed): `@namespace p "a"; @namespace q "b"; x{}` then `insertRule(@namespace z "a", 2)`
+returns 1, where the new rule stands after the clean-up removed the rule at index 0 -/
+theorem index_after_clean :
+    let st := run St.empty [.add (nsS 0x70 0x61) false, .add (nsS 0x71 0x62) false, .add styleS false]
+    let r := step st (.insert (nsS 0x7A 0x61) (some 2) false)
+    r.2 = .ok 1 ∧ (r.1.rules[1]?.map (·.pre)) = some [0x7A] := by
+  decide
+
+/-- **parentStyleSheet** in a valid state the public getter (which walks up the parent rules) answers the sheet for
+every rule of the tree, at every depth -/
+theorem parentStyleSheet_all_depths (st : St) (h : Valid st) : ∀ r ∈ st.rules, r.pssOK [] = true :=
+  derivedPss_all st h.links
+
+/-- non-vacuity / regression witness: a freshly parsed `@media{@media{a{}}}` (depth 2) -/
 example :
-    let ops : List Op := [.add (charsetS 0x61) false, .add styleS false, .add (mediaS [styleS]) false,
-      .add (charsetS 0x62) false, .nSetText [2] [commentS, styleS], .setText [importS, mediaS [pageS [marginS 1]], styleS],
-      .nSetText [1, 0] [marginS 2]]
-    CleanTree St.empty ops ∧ ¬ Clean St.empty ops ∧ (run St.empty ops).rules.length = 3 := by
-  decide +kernel
+    let st := run St.empty [.setText [mediaS [mediaS [styleS]]]]
+    Valid st ∧ (st.rules.all fun r => r.pssOK []) = true ∧
+      (st.rules.all fun c => c.kids.all fun k => !k.kids.isEmpty) = true := by
+  simp only [← validB_iff]; decide
 
 /-! ## T9.3 — serialising and reparsing a valid sheet loses no rule -/
 
-/-- **T9.3** for every sheet whose tree is structurally valid (`ValidTree`; every `Valid` state is) and whose rules each survive a round trip on their own (`roundTrips`:
-selectors use declared namespaces, an @page rule holds each margin once, @namespace rules have a URI) and whose
-@namespace rules are all effective (`NsClean`, the state `_cleanNamespaces` leaves): parsing the serialisation —
-the dispatcher with its ordering levels 0..3 and the `S` bump, one `insertRule` per statement, the nested parsers of
-@media and @page, the final `_cleanNamespaces`, all in log-only mode — gives back the same tree of rule kinds, at
-every depth. No rule is lost to an ordering or nesting error. (Serialisation itself is the identity on rule
-descriptions here; that a single rule's text parses back to that rule is C03 and is exercised by the oracle.) -/
+/-- **T9.3** for every sheet whose tree is structurally valid (`ValidTree`; every `Valid` state is) and whose rules
+each survive a round trip on their own (`roundTrips`: selectors use declared namespaces, an @page rule holds each
+margin once, @namespace rules have a URI) and whose @namespace rules are all effective (`NsClean`): parsing the
+serialisation — the dispatcher with its ordering levels 0..3 and the `S` bump, one `insertRule` per statement, the
+nested parsers of @media and @page, the final `_cleanNamespaces`, all in log-only mode — gives back the same tree of
+rule kinds, at every depth. No rule is lost to an ordering or nesting error. (Serialisation itself is the identity on
+rule descriptions here; that a single rule's text parses back to that rule is C03 and is exercised by the oracle.) -/
 theorem reparse_keeps_all (st : St) (hv : ValidTree st) (hns : NsClean st.rules)
     (hrt : ∀ r ∈ st.rules, r.roundTrips (nsUris st.rules) = true) :
     Rule.shapes (reparse st).rules = Rule.shapes st.rules :=
   (reparse_rules st hv.top hv.kids hns hrt).1
 
-/-- … in particular the list of kinds of the sheet's own list -/
 theorem reparse_keeps_kinds (st : St) (hv : ValidTree st) (hns : NsClean st.rules)
     (hrt : ∀ r ∈ st.rules, r.roundTrips (nsUris st.rules) = true) :
     kindsOf (reparse st).rules = kindsOf st.rules :=
   (reparse_rules st hv.top hv.kids hns hrt).2
 
-/-- the hypothesis `Valid` is needed: in the state produced by the finding C09-add-variables-scan (@variables in
-front of @import) every rule round-trips on its own and the namespaces are clean, but the reparse drops the @import -/
-theorem reparse_loses_after_order_break :
-    let st := (step (run St.empty [.setText [commentS, importS]]) (.add varsS false)).1
-    (st.rules.all fun r => r.roundTrips (nsUris st.rules)) = true ∧
-      kindsOf st.rules = [.vars, .comment, .imp] ∧ kindsOf (reparse st).rules = [.vars, .comment] := by
-  decide
-
-/-- … and so is the nested-kinds clause: the @variables rule that C09-media-accepts-variables lets into an @media
-list is gone after a reparse -/
-theorem reparse_loses_after_nested_break :
-    let st := (step (run St.empty [.add (mediaS [styleS]) false]) (.nInsert [0] varsS none false)).1
-    st.rules.map (fun r => kindsOf r.kids) = [[.style, .vars]] ∧
-      (reparse st).rules.map (fun r => kindsOf r.kids) = [[.style]] := by
+/-- the hypothesis `ValidTree` is needed: a list that is not ordered (here written down directly: @variables,
+comment, @import — what `add` used to produce before the fix) loses its @import in the reparse although every rule
+round-trips on its own -/
+theorem reparse_loses_when_unordered :
+    let st : St := { rules := [⟨0, .vars, [], [], [], [], true, none, []⟩, ⟨1, .comment, [], [], [], [], true, none, []⟩,
+      ⟨2, .imp, [], [], [], [], true, none, []⟩], gone := [], next := 3, raising := true }
+    ¬ TopOK st.rules ∧ (st.rules.all fun r => r.roundTrips (nsUris st.rules)) = true ∧
+      kindsOf (reparse st).rules = [.vars, .comment] := by
   decide
 
 /-- non-vacuity of T9.3: a sheet with every kind, nested lists, a used namespace — all hypotheses hold -/
@@ -328,21 +230,21 @@ example :
 
 /-! ## T9.4 — the @namespace rules stay effective; T9.3 for reachable states -/
 
-/-- **T9.4** EVERY operation (no exclusion) leaves the @namespace rules of the sheet clean — prefixes pairwise
-distinct, URIs pairwise distinct, i.e. every @namespace rule effective: `_cleanNamespaces` does its job after
-`insertRule` / `add` / `namespaces[p] = u` (where it may refuse, and then the list is put back) and after a text
-replacement (where the same-prefix merging of the parser makes it impossible for the clean-up to refuse). -/
+/-- **T9.4** EVERY operation leaves the @namespace rules of the sheet clean — prefixes pairwise distinct, URIs
+pairwise distinct, i.e. every @namespace rule effective -/
 theorem step_nsClean (st : St) (op : Op) (h : NsClean st.rules) : NsClean (step st op).1.rules := by
   cases op with
   | insert s i v => exact insertRule_nsClean st s i false v _ h
   | add s v => exact insertRule_nsClean st s none true v _ h
   | insertOrdered s i v => exact insertRule_nsClean st s (some i) true v _ h
+  | insertList specs i => exact insertList_nsClean st specs i h
   | delete i => exact deleteRule_nsClean st i h
   | setEncoding e v => exact setEncoding_nsClean st e v h
   | setText specs => exact setText_nsClean st specs h
   | nsSet p u => exact nsSet_nsClean st p u h
   | nsDel p => exact nsDel_nsClean st p h
   | nInsert path s i v => exact nsClean_of_pairs h (nInsert_nsPairs st path s i v)
+  | nInsertList path specs i => exact nsClean_of_pairs h (nInsertList_view st path specs i).2
   | nDelete path i => exact nsClean_of_pairs h (nDelete_nsPairs st path i)
   | nSetText path kids => exact nsClean_of_pairs h (nSetText_nsPairs st path kids)
   | setMode b => exact h
@@ -359,29 +261,31 @@ theorem setText_all_or_nothing (st : St) (specs : List Spec) :
       (step st (.setText specs)).2 = .none :=
   setText_outcome st specs
 
-/-- **T9.3 for reachable states** after ANY history from the empty sheet that stays outside the four regions that
-concern the tree, the sheet whose rules each round-trip on their own is reparsed without loss: the structural
+/-- **T9.3 for reachable states** after ANY history of ANY operations from the empty sheet (rule objects handed in
+well nested), the sheet whose rules each round-trip on their own is reparsed without loss: the structural
 hypotheses of T9.3 (`ValidTree`, `NsClean`) are invariants, not assumptions. -/
-theorem reparse_after_history (raising : Bool) (ops : List Op) (hc : CleanTree (St.empty raising) ops)
+theorem reparse_after_history (raising : Bool) (ops : List Op) (hc : AllOK ops)
     (hrt : ∀ r ∈ (run (St.empty raising) ops).rules,
       r.roundTrips (nsUris (run (St.empty raising) ops).rules) = true) :
     Rule.shapes (reparse (run (St.empty raising) ops)).rules = Rule.shapes (run (St.empty raising) ops).rules := by
   have hv : ValidTree (St.empty raising) := by
     refine ⟨topOK_nil, ?_, ?_, ?_⟩ <;> intro r hr <;> cases hr
   have hn : NsClean (St.empty raising).rules := by simp [St.empty, NsClean, nsPairs]
-  exact reparse_keeps_all _ (reachable_tree_partial _ ops hv hc) (reachable_nsClean _ ops hn) hrt
+  exact reparse_keeps_all _ (reachable_tree _ ops hv hc) (reachable_nsClean _ ops hn) hrt
 
-/-- non-vacuity of T9.1 / T9.2: a history of fourteen operations of all families (object and string arguments,
-refused and accepted ones, nested lists, text replace on the empty sheet, namespaces, encoding) lies outside every
-region — so `reachable_valid_partial` applies to it — and ends in a non-trivial sheet -/
+/-- non-vacuity of T9.1 / T9.2: a history of operations of all families (object and string arguments, refused and
+accepted ones, rule lists, nested lists, text replaces on non-empty lists, namespaces, encoding, the formerly
+excluded ordered adds) satisfies `AllOK` and ends in a non-trivial sheet -/
 example :
     let ops : List Op := [
       .setText [charsetS 0x61, commentS, importS, nsS 0x70 0x75, varsS, styleUsing 0x75, mediaS [styleS, pageS [marginS 1]]],
       .insert importS (some 2) true, .insert importS (some 5) false, .add (nsS 0x71 0x76) false, .add varsS true,
       .add (mediaS [commentS]) false, .nInsert [6] styleS (some 0) true, .nInsert [6, 2] (marginS 2) none false,
       .nDelete [6] (-1), .nsSet [0x72] [0x77], .nsDel [0x70], .setEncoding [0x62] true, .delete 1, .setMode false,
-      .insert (charsetS 0x63) (some 3) false]
-    Clean St.empty ops ∧ (run St.empty ops).rules.length = 11 := by
+      .insert (charsetS 0x63) (some 3) false, .add (charsetS 0x64) false, .insertList [styleS, fontfaceS] none,
+      .insertList [styleS, importS] none, .nInsertList [6] [styleS, varsS] none, .nSetText [6] [styleS],
+      .insertOrdered varsS 0 false]
+    AllOK ops ∧ (run St.empty ops).rules.length = 15 := by
   decide +kernel
 
 end CssVerif.C09
